@@ -14,7 +14,7 @@ RULE = ("Plans: all engine mixes, both directions, plateau / tie objectives, all
         "faults; 30% of the plans are twin minimize() runs (same seed, budgets N1 < N2) whose call logs are compared.")
 NONTRIVIAL_RULE = ">= 2 boundaries at which the brute-force best over all histories was compared with the reported best"
 EXPECTED_PROBES = ["c04-boundary-judgements", "c04-level-best-vs-observed", "c04-twin-prefix-checked", "c04-ties-at-best",
-                   "c04-best-improved"]
+                   "c04-best-improved", "c04-mid-metaepoch-reads"]
 ASSUMPTIONS = ["'best ever observed' for a level = best value returned by an objective invocation requested by a deme of that level (refused requests excluded)"]
 
 PROFILE = P.profile(p_cutoff=0.3, entry_w={"tree": 8, "hms": 1, "minimize": 0},
@@ -33,7 +33,11 @@ def gen(seed, tier):
             m["seed"] = seed % 100000
         pl["twin_maxfun"] = m["maxfun"] + 1 + (seed // 10) % (2 * m["maxfun"])
         return pl
-    return P.gen_plan(seed, PROFILE, PROP)
+    pl = P.gen_plan(seed, PROFILE, PROP)
+    # half of the plans: the bests are also *read* after every generation of every deme, as a user-defined stop
+    # condition may do (looking must not change what is reported later)
+    pl["c04_midreads"] = (seed // 7) % 2 == 0
+    return pl
 
 
 class C04Monitor(Monitor):
@@ -127,6 +131,13 @@ class C04Monitor(Monitor):
 
     def on_boundary(self, tree):
         self._judge(tree, "boundary")
+
+    def on_consult(self, tree, site, deme, raw, verdict):
+        if site != "boundary" and self.w.plan.get("c04_midreads") and self.w.tree_ready:
+            self.w.probe("c04-mid-metaepoch-reads")
+            tree.best_individual
+            for d in all_demes(tree):
+                d.best_individual
 
     def on_end(self, tree, outcome):
         w = self.w
